@@ -52,7 +52,11 @@ func (seg Segment) Raycast(point Point) RaycastResult {
 			}
 		}
 	}
-	if (p.X-a.X)/(b.X-a.X) == (p.Y-a.Y)/(b.Y-a.Y) {
+	// The two quotients are only compared while the point is within the width
+	// of the segment (it is within its height already): beyond an end they
+	// can round, or underflow, to the same value.
+	if ((p.X >= a.X && p.X <= b.X) || (p.X >= b.X && p.X <= a.X)) &&
+		(p.X-a.X)/(b.X-a.X) == (p.Y-a.Y)/(b.Y-a.Y) {
 		return RaycastResult{false, true}
 	}
 
